@@ -47,8 +47,21 @@ NEEDS = {
  'C15-hdf5-runnerup-slab-direct-only': 'drop_level naming a level that is neither the first nor the leaf level, n_runners_up > 0 and a cell with an actual runner-up',
  'C16-clip-suffix-before-lookup': 'a known gene symbol that itself contains a "." (Tex19.1, AC149091.1) in the var index',
  'C17-drop-level-copies-dropped-markers': 'drop_level applied, a parent directly above the dropped level with exactly one child there (which has several children), and a marker table with no entry for that parent but one for the dropped child',
+ 'C01-skip-reorder-single-worker': 'n_processors == 1 and chunk start rows with different digit counts (e.g. chunk_size 4 with >= 13 cells): the buffer files are read back in lexicographic order and the final re-ordering was the only thing hiding it (two cooperating sites)',
+ 'C03-fused-backfill-leaks-parent-corr': 'a taxonomy whose top level has a single node and at least two cells in one worker chunk (state carried from one cell to the next)',
+ 'C06-unstable-grouping-plus-skip-copy': 'a chunk of more than 16 cells that are all assigned to the same non-leaf node with several children (two cooperating sites: unstable argsort grouping + skipped copy)',
+ 'C07-query-marker-index-dtype-from-reference': 'a query with more than 256 gene columns against a reference of at most 255 genes, with a marker beyond column 255',
+ 'C08-blank-unneeded-parents-before-patching': 'a marker table that lists genes for a single-child parent whose child has too few markers of its own in the query',
+ 'C09-obs-names-lru-cache-by-path': 'two statistics computations in ONE process on the same file path with different content in between (process-lifetime cache keyed by path)',
+ 'C18-leaf-means-inverse-permutation': 'a statistics file whose rows are not in alphabetical leaf order with a permutation containing a cycle of length >= 3 (written by the truncation stage when the leaf level is dropped)',
+ 'C20-is-exposed-two-levels-only': 'cloud_safe run recording a path with two or more non-existent trailing components (output in a missing directory, missing scratch directory)',
 }
 HISTORY = {
+ 'C03-fused-backfill-leaks-parent-corr': 'OBSERVED MISS by C03 (caught by C06 as it stood: the number depends on the neighbouring cell): for a single-child chain that starts at the top there is no real choice above, and the oracle checked nothing there. It now accepts both readings of "nearest level where a real choice was made" -- 1.0 or the same cell\'s correlation at the first real choice below -- and rejects anything else; caught with 147 occurrences per quick run',
+ 'C07-query-marker-index-dtype-from-reference': 'PREDICTED MISS: the extra-genes relation added 3 columns at the end. It now adds 3 / 20-60 / 257-400 (65537+ in the thorough tier) columns before, after or interleaved with the kept ones; caught with 21 occurrences per quick run',
+ 'C06-unstable-grouping-plus-skip-copy': 'caught as it stood (2 occurrences per quick run, thin); queries of 40 cells were added on this occasion',
+ 'C09-obs-names-lru-cache-by-path': 'OBSERVED MISS of a new kind: the violation appeared 600+ times in the shards (every scenario of a shard re-uses the same sandbox paths in one process) but did not reproduce from its single-scenario replay file in a fresh process, so the run ended as HARNESS-ERROR (exit 2), not as a VIOLATION. The orchestrator now confirms such a violation together with a HISTORY -- growing suffixes of the scenarios that ran before it in the same shard process, then dropped one at a time -- and writes a replay file {history: [...], scenario}; minimised here to one predecessor',
+ 'C18-leaf-means-inverse-permutation': 'OBSERVED MISS by C18 (caught by C02 as it stood, whose statistics files have shuffled rows): the pipeline\'s own statistics stage always writes alphabetical rows. C18 now runs the truncation stage between statistics and markers in 30% of the scenarios (any sub-sequence of the levels; dropping the leaf level re-builds the rows in first-appearance order); caught with 3 occurrences per quick run',
  'C05-csr-to-dense-scatter-index-dtype': 'OBSERVED MISS: the row-access matrices had at most 30 rows, so no read spanned the 2**8 index-width boundary of the CSC->CSR conversion. The generator now draws tall (257..520 rows; 65537+ rows in the thorough tier) and wide (257..300 columns) matrices read in one chunk; caught with 44 occurrences per quick run',
  'C16-clip-suffix-before-lookup': 'OBSERVED MISS: gene symbols were sampled from dot-free names only. The generator now has two modes that draw from the 44 known mouse symbols containing a "."; caught with 26 occurrences per quick run',
  'C15-hdf5-runnerup-slab-direct-only': 'caught as it stood (class hdf5-value); the IndexError the reader raises on some of these files surfaced as a harness error and is now its own violation class hdf5-unreadable',
